@@ -16,7 +16,7 @@ requires (the statement's hypotheses, checked concretely for every k used):
     every calendar month addition lands on an existing day.
 ensures
     C35.exact_occurrences    list(SCHEDULE(spec, start, count, end)) == reference list
-    C35.increasing           strictly increasing
+    C35.increasing           strictly increasing (valid schedules)
     C35.within_start_end     every t: start <= t and (end is None or t <= end)
     C35.at_most_count        len(result) <= max(count, 0)
     C35.timezone_of_start    every t carries the tzinfo of DTIME(start)
@@ -202,6 +202,7 @@ def exact(a, r):
 
 
 def increasing(a, r):
+  if a["kind"] not in ("valid", "doc"): return True      # needs the statement's hypotheses
   return True if all(x < y for x, y in zip(r, r[1:])) else "not strictly increasing"
 
 
@@ -517,7 +518,7 @@ def cases(tier, seed):
                "tz": zone, "count": count, "end": None}
   # (R) seeded random valid schedules
   rng = random.Random(7919 * seed + 35)
-  for _ in range(40000 if quick else 1500000):
+  for _ in range(100000 if quick else 1500000):
     a = gen_valid(rng)
     if a is not None: yield a
   # (I) invalid by construction x a few starts
@@ -525,7 +526,7 @@ def cases(tier, seed):
     for start, zone in BASE_STARTS[:3]:
       yield {"kind": "invalid", "spec": spec, "start": start, "tz": zone, "count": 3, "end": None}
   # (F) fuzzed token strings: only "datetimes or ValueError"
-  for _ in range(20000 if quick else 400000):
+  for _ in range(50000 if quick else 400000):
     spec = "".join(rng.choice(TOKENS) for _ in range(rng.randint(1, 8)))
     yield {"kind": "fuzz", "spec": spec, "start": BASE_STARTS[0][0], "tz": None, "count": 3,
            "end": BASE_STARTS[0][0] + TD(days=800)}
@@ -555,8 +556,8 @@ def main():
     "slot_lists": "1-3 slots of 1-4 parts from the documented part syntaxes",
     "counts": [0, 1, 3, 10, -1], "ends": "none / on, before, after an occurrence / before start",
     "grid_cases": len(UNITS) * len(MULTIPLES) * len(BASE_STARTS) * (6 if quick else 60),
-    "random_valid": 40000 if quick else 1500000,
-    "invalid_by_construction": len(INVALID) * 3, "fuzz": 20000 if quick else 400000}
+    "random_valid": 100000 if quick else 1500000,
+    "invalid_by_construction": len(INVALID) * 3, "fuzz": 50000 if quick else 400000}
   driver.check(rep, CONTRACT, cases, exhaustive=False)
   rep.coverage["exhaustive"] = False
   return rep.finish()
